@@ -33,6 +33,12 @@ c19_gen = importlib.util.module_from_spec(_spec)
 _spec.loader.exec_module(c19_gen)
 
 IMPL = 'c19_sample.py'
+# Development hook (sensitivity tests of this check on a mutated COPY of the source tree; never set by
+# ./check, which runs under `env -i`): C19_SRC_OVERRIDE=/path/to/copy/src
+SRC_OVERRIDE = os.environ.get('C19_SRC_OVERRIDE')
+if SRC_OVERRIDE:
+    from pathlib import Path as _P
+    c19_gen.REPO_SRC = _P(SRC_OVERRIDE) / 'biogeme' / 'sampling_of_alternatives'
 TOL_CORR = 1e-9     # |_log_proba - ln(k/n)|: the implementation's error is a few ulp of ln(n) <= 1e-15,
 #                     two different ratios with denominators <= 99 differ by >= 1e-4 in logarithm
 TOL_VAL = 1e-9      # relative tolerance on engine values (combined variables, log likelihoods)
@@ -130,7 +136,15 @@ def feval(t, env):
     if op == 'exp':
         return math.exp(feval(t[1], env))
     a, b = feval(t[1], env), feval(t[2], env)
-    return {'+': a + b, '-': a - b, '*': a * b, '/': a / b}[op]
+    if op == '+':
+        return a + b
+    if op == '-':
+        return a - b
+    if op == '*':
+        return a * b
+    if op == '/':
+        return a / b
+    raise ValueError(f'unknown op {op}')
 
 
 def fcoq(t):
@@ -252,10 +266,24 @@ def gen_case(rng, kind='sample', force=None):
         case['mev_sizes'] = gen_sizes(rng, msegs, 'full' if kind == 'full' else rng.choice(['full', 'ones', 'random', 'mixed']))
         case['mev_full_set'] = mids if rng.random() < 0.5 else None
     ncv = rng.randint(0, 2) if kind == 'sample' else rng.randint(0, 1)
-    case['combined'] = [{'name': f'cv{i + 1}', 'formula': gen_formula(rng, socio, attrs)} for i in range(ncv)]
-    for cv in case['combined']:   # a combined variable must use at least one attribute of the alternative
-        if not (fvars(cv['formula']) & set(attrs)):
-            cv['formula'] = ['+', cv['formula'], ['var', attrs[0]]]
+    case['combined'] = []
+    for i in range(ncv):
+        # well-conditioned inputs (DESIGN 2.4): |value| <= 64 on every (individual, alternative) pair, so
+        # that utilities stay below ~40 and no exponential overflows; the last resort is a bilinear form
+        for attempt in range(40):
+            f = gen_formula(rng, socio, attrs) if attempt < 39 else ['*', ['var', socio[0]], ['var', attrs[0]]]
+            if not (fvars(f) & set(attrs)):   # must use at least one attribute of the alternative
+                f = ['+', f, ['var', attrs[0]]]
+            if attempt == 39:
+                f = ['/', f, ['num', 16.0]]
+            try:
+                m = max(abs(feval(f, dict(zip(case['ind_cols'], r)) | dict(zip(case['alt_cols'], a))))
+                        for r in inds for a in alts)
+            except (ValueError, ZeroDivisionError, OverflowError):
+                continue
+            if m <= 64:
+                break
+        case['combined'].append({'name': f'cv{i + 1}', 'formula': f})
     terms = [['*', ['beta', f'b_{a}', rng.randint(-8, 8) / 8], ['var', a]] for a in attrs]
     terms += [['*', ['beta', f'b_{cv["name"]}', rng.randint(-4, 4) / 16], ['var', cv['name']]] for cv in case['combined']]
     u = terms[0]
@@ -265,9 +293,8 @@ def gen_case(rng, kind='sample', force=None):
     return case
 
 
-def add_full_model(rng, case):
-    """kind = full: values of the combined variables on the full choice set (harness evaluator), nests"""
-    idc = case['id_col']
+def complete_full_model(case):
+    """kind = full: values of the combined variables on the full choice set (harness evaluator)"""
     keys, vals = [], []
     for cv in case['combined']:
         for a in case['alts']:
@@ -282,6 +309,12 @@ def add_full_model(rng, case):
                 row.append(feval(cv['formula'], env))
         vals.append(row)
     case['full_cv_keys'], case['full_cv_values'] = keys, vals
+    return case
+
+
+def add_full_model(rng, case):
+    """kind = full: combined variables on the full choice set + generated nest structures"""
+    complete_full_model(case)
     ids = sorted(int(a[0]) for a in case['alts'])
     if case['mev_segments'] is not None:
         # nests: a partition of a subset of the alternatives (the others are alone)
@@ -527,7 +560,8 @@ def shard(cases, n):
 
 def run_impl(ctx, cases, nshards=16, timeout=1500):
     shards = shard(cases, nshards)
-    outs = ctx.impl_parallel(IMPL, [[c for _, c in sh] for sh in shards], timeout=timeout)
+    outs = ctx.impl_parallel(IMPL, [[c for _, c in sh] for sh in shards], timeout=timeout,
+                             extra_env={'PYTHONPATH': SRC_OVERRIDE} if SRC_OVERRIDE else None)
     res = [None] * len(cases)
     for sh, o in zip(shards, outs):
         for (i, _), r in zip(sh, o):
@@ -544,6 +578,8 @@ def load_corpus(kind):
             continue
         if c.get('kind') == kind:
             c['corpus'] = os.path.basename(p)
+            if kind == 'full' and 'full_cv_keys' not in c:
+                complete_full_model(c)
             out.append(c)
     return out
 
@@ -656,6 +692,8 @@ def oracle_full_case(case, res):
             out.append((f'{tag}-exception', {k: r[k] for k in r if k.endswith('exc')}))
             continue
         for n, (a, b) in enumerate(zip(r['sample'], r['full'])):
+            if isinstance(a, str) and a == b:
+                continue   # both sides overflow to the same infinity: nothing to compare (ill-conditioned input)
             if not rel_close(a, b):
                 out.append((f'{tag}-loglik', {'individual': n, 'on_sample': a, 'full_model': b}))
             if tag == 'logit' and not rel_close(b, direct[n]):
@@ -863,11 +901,16 @@ def run(ctx):
         gen_all(ctx)
     except Untranslatable as e:
         ctx.tie_broken('ast-extractor:SamplingFormulas', str(e))
-    b = ctx.build()
-    stream_segsize(ctx)
-    stream_validate(ctx)
-    stream_sample(ctx)
-    stream_full(ctx)
+    import time
+    t0 = time.time()
+    ctx.build()
+    times = {'build': round(time.time() - t0, 1)}
+    for name, fn in (('segsize', stream_segsize), ('validate', stream_validate), ('sample', stream_sample),
+                     ('full', stream_full)):
+        t0 = time.time()
+        fn(ctx)
+        times[name] = round(time.time() - t0, 1)
+    ctx.notes['wall_by_stage_s'] = times
     ctx.notes['side_effects'] = ('sample_and_merge writes the merged data to the fixed file name given in the context '
                                  '(biogeme_file_name) in cwd, overwriting silently; runs are made in scratch directories '
                                  '(overwrite behaviour is the concern of C14)')
